@@ -128,7 +128,7 @@ c.ensures(upload_placement_post, "entry-is-placed-at-destination-joined-with-its
 from pyvc import strmodel  # noqa: E402
 from pyvc.models_lib import DequeModel  # noqa: E402
 from pyvc.session import Reader, Writer  # noqa: E402
-from pyvc.unit import LoopSpec  # noqa: E402
+from pyvc.unit import LoopSpec, SpecInterp  # noqa: E402
 from pyvc.values import Model  # noqa: E402
 
 COMMON = "aioftp.common"
@@ -174,21 +174,25 @@ class ListStream(Model):
         raise Unsupported("stream." + name)
 
 
-def setup_lister(u):
+def _lister_client(u, forking_get_stream):
+    """a Client whose get_stream (the data connection of one MLSD/LIST) and line parsers are stand-ins that record
+    what they are asked: get_stream may be refused with 502 (not implemented) or 550 when `forking_get_stream`"""
     it = u.it
     cl = Obj(u.cls(CLIENT, "Client"), tag="client")
     cl.fields["encoding"] = "utf-8"
-    recursive = u.choose(2, "recursive") == 1
-    root = mk_path(u, "listed", "/")
     streams = []
 
-    # Client.get_stream (the data connection for MLSD/LIST) and the line parser are used through summaries
     def get_stream(i, a, k):
         def run():
             i.suspend("get_stream")
+            oc = i.ctx.choose(3, "listing-command-outcome") if forking_get_stream else 0
+            if oc:
+                code = i.call(u.cls(CLIENT, "Code"), [["502", "550"][oc - 1]], {})
+                i.ctx.event("refused", a[1], ["502", "550"][oc - 1])
+                raise PyRaise(i.call(u.cls("aioftp.errors", "StatusCodeError"), [i.call(u.cls(CLIENT, "Code"), ["1xx"], {}), code, ["refused"]], {}))
             s = ListStream(f"stream{len(streams)}")
             streams.append((s, a[1]))
-            i.ctx.event("new-stream", s, a[1])
+            i.ctx.event("new-stream", s, a[1], a[2] if len(a) > 2 else None)
             return s
 
         return Coro(run, "get_stream")
@@ -198,7 +202,7 @@ def setup_lister(u):
     cl.cls = type(cl.cls)(cl.cls.name, [cl.cls], {"get_stream": b})
     parsed = []
 
-    def parse_line(i, a, k):
+    def parse_line(i, a, k, who):
         c = i.ctx.choose(3, "parsed-entry")  # a proper entry, '.', '..'   (or the documented ValueError)
         name = [None, ".", ".."][c]
         if name is None:
@@ -211,23 +215,32 @@ def setup_lister(u):
             p.dot = name
         typ = ["dir", "file"][i.ctx.choose(2, "entry-type")]
         info = {"type": typ}
-        parsed.append((p, info, a[1] if len(a) > 1 else a[0]))
+        parsed.append((p, info, a[-1], who))
         return (p, info)
 
     for nm in ("parse_mlsx_line", "parse_list_line"):
-        pb = Builtin("Client." + nm, parse_line)
+        pb = Builtin("Client." + nm, lambda i, a, k, nm=nm: parse_line(i, a, k, nm))
         pb.is_method = True
         cl.cls.attrs[nm] = pb
+    return cl, streams, parsed, parse_line
+
+
+def setup_lister(u):
+    it = u.it
+    cl, streams, parsed, parse_line = _lister_client(u, False)
+    recursive = u.choose(2, "recursive") == 1
+    root = mk_path(u, "listed", "/")
     lister = it.call(it.getattr_(cl, "list"), [root], {"recursive": recursive})
     it.call(it.getattr_(lister, "__aiter__"), [], {})
+    u.parse_line = parse_line
     # an arbitrary moment of the iteration: some stream is open (or none yet), some directories are queued
     started = u.choose(2, "already-started") == 1
     if started:
         cur = ListStream("current")
         lister.fields["stream"] = cur
         lister.fields["path"] = mk_path(u, "curdir", root.anchor)
-        pb = cl.cls.attrs["parse_mlsx_line"]
-        lister.fields["parse_line"] = it.getattr_(cl, "parse_mlsx_line")
+        # whichever parser the _new_stream call that opened `cur` installed
+        lister.fields["parse_line"] = Builtin("parser-of-current", lambda i, a, k: parse_line(i, a, k, cur))
         q = lister.fields["directories"]
         nq = u.choose(2, "queued-directories")
         for j in range(nq):
@@ -236,11 +249,45 @@ def setup_lister(u):
     return f, [], {}, {"lister": lister, "recursive": recursive, "parsed": parsed, "streams": streams, "root": root, "queue0": list(lister.fields["directories"].items)}
 
 
-c = contract(CLIENT, "Client.list.<locals>.AsyncLister.__anext__", props=["C09", "C19"], name="Client.list.<locals>.AsyncLister.__anext__")
-c.setup = setup_lister
+# summary of AsyncLister._new_stream (proved below against the real code): sets the directory being listed, opens its
+# listing stream and installs the parser that belongs to the command which opened it - or passes the refusal on
+_ns = contract(CLIENT, "Client.list.<locals>.AsyncLister._new_stream", props=[], name="Client.list.<locals>.AsyncLister._new_stream#summary")
+_ns.self_check = False
+_ns.may_suspend = True
+_ns.raises_("StatusCodeError")
+
+
+def _ns_apply(S):
+    S.vars["cls"].fields["path"] = S.vars["local_path"]
+
+
+def _ns_result(S):
+    it = S.it
+    s = ListStream(f"stream-of-{len([e for e in it.ctx.events if e[0] == 'new-stream'])}")
+    S.vars["cls"].fields["parse_line"] = Builtin("parser-of-" + s.tag, lambda i, a, k: it.ctx.ghost["parse_line"](i, a, k, s))
+    it.ctx.event("new-stream", s, S.vars["local_path"], None)
+    return s
+
+
+_ns.apply_hook = _ns_apply
+_ns.result_shape = _ns_result
+
+
+c = contract(CLIENT, "Client.list.<locals>.AsyncLister.__anext__", props=["C09", "C19", "C07"], name="Client.list.<locals>.AsyncLister.__anext__")
+
+
+def _setup_lister_with_ghost(u):
+    r = setup_lister(u)
+    u.it.ctx.ghost["parse_line"] = u.parse_line
+    return r
+
+
+c.setup = _setup_lister_with_ghost
+c.uses = [(CLIENT, "Client.list.<locals>.AsyncLister._new_stream#summary")]
 c.raises_("StopAsyncIteration", lambda S: lister_stop_ok(S), "stops-only-when-the-last-queued-directory-is-exhausted")
 c.raises_("CancelledError")
 c.raises_("ValueError")
+c.raises_("StatusCodeError")
 c.opts = {"feas_timeout_ms": 300, "no_covers": True}
 c.env_hooks = {"unroll_limit": 2, "unroll_exceed": "end"}
 c.assumptions.append("B-unroll: the two while loops of __anext__ are unrolled twice (up to 2 consecutive '.'/'..' entries and up to 2 consecutive exhausted directories before an entry is returned) — bounded in that dimension, symbolic in names, paths and queue contents")
@@ -258,7 +305,7 @@ def lister_post(S):
     lister, parsed = S.vars["lister"], S.vars["parsed"]
     if not parsed:
         return False
-    p, info, _line = parsed[-1]
+    p, info, _line, _who = parsed[-1]
     if getattr(p, "dot", None):
         return False  # a dot entry must be skipped, never returned
     path, rinfo = S.result
@@ -274,6 +321,98 @@ def lister_post(S):
 
 
 c.ensures(lister_post, "yields-directory-joined-with-the-entry-name-skips-dots-queues-directories-iff-recursive")
+
+
+def lister_lines_post(S):
+    """C07 (client side of a listing): every line read from a listing stream during this call is handed exactly once,
+    in order, to the parser installed for that very stream; only '.'/'..' entries are dropped; the entry returned is
+    the one parsed from the last line read, and it is reported under the directory whose stream it came from"""
+    it = S.it
+    ev = it.ctx.events
+    lines = [(e[1], e[2]) for e in ev if e[0] == "line"]
+    parsed = S.vars["parsed"]
+    if len(lines) != len(parsed) or not parsed:
+        return False
+    for (p, info, arg, who), (stream, line) in zip(parsed, lines):
+        if arg is not line or who is not stream:
+            return False
+    if S.vars["lister"].fields["stream"] is not lines[-1][0]:
+        return False
+    opened = [e for e in ev if e[0] == "new-stream" and e[1] is lines[-1][0]]
+    if opened and S.vars["lister"].fields["path"] is not opened[0][2]:
+        return False
+    return all(getattr(p[0], "dot", None) for p in parsed[:-1]) and not getattr(parsed[-1][0], "dot", None) and S.result[1] is parsed[-1][1]
+
+
+c.ensures(lister_lines_post, "every-line-read-is-parsed-once-in-order-by-its-stream's-parser-only-dot-entries-are-dropped", props=["C07"])
+
+
+# ---- AsyncLister._new_stream against the real code
+def setup_new_stream(u):
+    it = u.it
+    cl, streams, parsed, parse_line = _lister_client(u, True)
+    raw = [None, "MLSD", "LIST", "NLST"][u.choose(4, "raw_command")]
+    root = mk_path(u, "listed", "/")
+    lister = it.call(it.getattr_(cl, "list"), [root], {"raw_command": raw})
+    it.call(it.getattr_(lister, "__aiter__"), [], {})
+    local = mk_path(u, "directory", root.anchor)
+    f = it.getattr_(lister, "_new_stream")
+    return f, [local], {}, {"lister": lister, "local_path": local, "raw": raw, "streams": streams, "client": cl}
+
+
+c = contract(CLIENT, "Client.list.<locals>.AsyncLister._new_stream", props=["C07", "C09"])
+c.setup = setup_new_stream
+c.raises_("CancelledError")
+
+
+def _attempts(S):
+    return [e for e in S.it.ctx.events if e[0] in ("new-stream", "refused")]
+
+
+def _cmd_for(S, verb):
+    sp = SpecInterp(S.it)
+    return sp.value(f'("{verb} " + str(local_path)).strip()', S)
+
+
+def new_stream_post(S):
+    """the stream returned is the data stream of `MLSD <dir>` with the MLSx parser installed, or - only when raw_command
+    allows it and MLSD was refused with 50x, or LIST was asked for - of `LIST <dir>` with the LIST parser installed;
+    every listing command expects a 1xx reply; the lister's current directory is the one asked for"""
+    it = S.it
+    at = _attempts(S)
+    lister, raw = S.vars["lister"], S.vars["raw"]
+    if not at or at[-1][0] != "new-stream" or S.result is not at[-1][1] or at[-1][3] != "1xx":
+        return False
+    if lister.fields["path"] is not S.vars["local_path"]:
+        return False
+    pl = lister.fields["parse_line"]
+    cmd = it.unbox(at[-1][2])
+    name = getattr(getattr(pl, "func", None), "name", "")
+    if len(at) == 1 and raw in (None, "MLSD"):
+        return z3.And(cmd.t == _cmd_for(S, "MLSD").t, z3.BoolVal(name == "Client.parse_mlsx_line"))
+    if len(at) == 1 and raw == "LIST":
+        return z3.And(cmd.t == _cmd_for(S, "LIST").t, z3.BoolVal(name == "Client.parse_list_line"))
+    if len(at) == 2 and raw is None and at[0][0] == "refused" and at[0][2] == "502":
+        return z3.And(it.unbox(at[0][1]).t == _cmd_for(S, "MLSD").t, cmd.t == _cmd_for(S, "LIST").t, z3.BoolVal(name == "Client.parse_list_line"))
+    return False
+
+
+c.ensures(new_stream_post, "MLSD-with-the-MLSx-parser-or-LIST-with-the-LIST-parser-as-fallback-for-50x-only")
+
+
+def new_stream_refused(S):
+    """a refusal is passed on unless it is the 50x answer to an MLSD that was not explicitly asked for"""
+    at = _attempts(S)
+    raw = S.vars["raw"]
+    if not at or at[-1][0] != "refused":
+        return False
+    if len(at) == 1:
+        return (raw in (None, "MLSD") and (at[0][2] != "502" or raw == "MLSD")) or raw == "LIST"
+    return len(at) == 2 and raw is None and at[0][0] == "refused" and at[0][2] == "502"
+
+
+c.raises_("StatusCodeError", new_stream_refused, "refusals-are-passed-on-except-50x-to-the-default-MLSD")
+c.raises_("ValueError", lambda S: S.vars["raw"] == "NLST" and not _attempts(S), "unknown-raw_command-is-rejected-before-anything-is-sent")
 
 
 # ------------------------------------------------------------------------------------ make_directory / remove
@@ -452,3 +591,115 @@ def remove_post(S):
 
 
 c.ensures(remove_post, "removes-the-subtree-and-names-nothing-else")
+
+
+# ------------------------------------------------------------------------------------ Client.stat (MLST, LIST fallback on 50x)
+def setup_stat(u):
+    it = u.it
+    names = [fresh("str", f"n{i}") for i in range(1 + u.choose(2, "path-depth"))]
+    for n in names:
+        u.assume(models_path.clean_part(n.t))
+        u.assume(n.t != z3.StringVal(".."))
+    path = PathVal("posix", "/", models_path.seq_of(names), abs_known=True)
+    sent, listed, parsed = [], [], []
+    nent = u.choose(3, "entries-in-the-parent-listing")
+    entries = []
+    for j in range(nent):
+        nm = fresh("str", f"entry{j}")
+        u.assume(models_path.clean_part(nm.t))
+        entries.append((PathVal("posix", "/", z3.Concat(models_path.seq_of(names[:-1]), z3.Unit(nm.t)), abs_known=True), {"type": ["file", "dir"][j % 2], "n": j}))
+    line2 = fresh("str", "mlst_fact_line")
+
+    def command(i, a, k):
+        def run():
+            i.suspend("command")
+            sent.append((a[1], a[2] if len(a) > 2 else None))
+            oc = i.ctx.choose(3, "MLST-outcome")
+            if oc:
+                code = i.call(u.cls(CLIENT, "Code"), [["502", "550"][oc - 1]], {})
+                i.ctx.event("refused", a[1], ["502", "550"][oc - 1])
+                raise PyRaise(i.call(u.cls("aioftp.errors", "StatusCodeError"), [i.call(u.cls(CLIENT, "Code"), ["2xx"], {}), code, ["refused"]], {}))
+            return (i.call(u.cls(CLIENT, "Code"), ["250"], {}), ["start", line2, "end"])
+
+        return Coro(run, "command")
+
+    def parse_mlsx_line(i, a, k):
+        info = {"type": "file", "from": "mlst"}
+        parsed.append((a[1], info))
+        return (PathVal("posix", "", z3.Unit(fresh("str", "mlst_name").t)), info)
+
+    def list_(i, a, k):
+        def run():
+            i.suspend("list")
+            listed.append((a[1], k))
+            return list(entries)
+
+        return Coro(run, "list")
+
+    cl = _client_with(u, {"command": command, "parse_mlsx_line": parse_mlsx_line, "list": list_})
+    return it.getattr_(cl, "stat"), [path], {}, {"path": path, "names": names, "sent": sent, "listed": listed, "parsed": parsed, "entries": entries, "line2": line2}
+
+
+c = contract(CLIENT, "Client.stat", props=["C07"])
+c.setup = setup_stat
+c.raises_("CancelledError")
+c.assumptions.append("B-entries: the parent listing used by the LIST fallback has 0..2 entries (names symbolic); paths of 1..2 components")
+
+
+def _stat_cmd_ok(S):
+    it = S.it
+    sent = S.vars["sent"]
+    if len(sent) != 1 or sent[0][1] != "2xx":
+        return False
+    sp = SpecInterp(it)
+    return it.unbox(sent[0][0]).t == sp.value('"MLST " + str(path)', S).t
+
+
+def stat_post(S):
+    """MLST answered: the facts of the reply's fact line (leading blanks removed), as parsed by the MLSx parser; MLST
+    refused with 50x: the info of the first entry of the parent directory's listing whose name is the path's name"""
+    it = S.it
+    parsed, listed, entries = S.vars["parsed"], S.vars["listed"], S.vars["entries"]
+    ref = [e for e in it.ctx.events if e[0] == "refused"]
+    cmd = _stat_cmd_ok(S)
+    if cmd is False:
+        return False
+    if not ref:
+        if len(parsed) != 1 or listed or S.result is not parsed[0][1]:
+            return False
+        from pyvc import strmodel
+
+        return z3.And(cmd, it.unbox(parsed[0][0]).t == strmodel.f_lstrip(S.vars["line2"].t))
+    if ref[-1][2] != "502" or parsed or len(listed) != 1:
+        return False
+    parent = listed[0][0]
+    names = S.vars["names"]
+    par_ok = z3.And(parent.anchor_t() == z3.StringVal("/"), parent.parts == models_path.seq_of(names[:-1]))
+    hit = [j for j, (p, info) in enumerate(entries) if S.result is info]
+    if len(hit) != 1:
+        return False
+    j = hit[0]
+    last = names[-1].t
+    nm = lambda p: p.parts[z3.Length(p.parts) - 1]  # noqa: E731
+    conj = [cmd, par_ok, nm(entries[j][0]) == last] + [nm(entries[i][0]) != last for i in range(j)]
+    return z3.And(*conj)
+
+
+c.ensures(stat_post, "MLST-facts-or-on-50x-the-matching-entry-of-the-parent-listing")
+
+
+def stat_refused(S):
+    """550 for a missing entry (fallback found no entry of that name); any non-50x refusal of MLST is passed on"""
+    it = S.it
+    ref = [e for e in it.ctx.events if e[0] == "refused"]
+    entries, names, listed = S.vars["entries"], S.vars["names"], S.vars["listed"]
+    if ref and ref[-1][2] == "550":
+        return not listed
+    if not ref or len(listed) != 1:
+        return False
+    last = names[-1].t
+    nm = lambda p: p.parts[z3.Length(p.parts) - 1]  # noqa: E731
+    return z3.And(*[nm(p) != last for p, _ in entries]) if entries else True
+
+
+c.raises_("StatusCodeError", stat_refused, "refusal-passed-on-or-550-only-when-no-entry-of-that-name-is-listed")
